@@ -18,6 +18,7 @@ import (
 	"os/exec"
 	"strings"
 	"sync"
+	"sync/atomic"
 	"syscall"
 	"testing"
 	"time"
@@ -31,11 +32,12 @@ import (
 
 // Cycle is one life of the storing process.
 type Cycle struct {
-	End        string `json:"end"`        // kill-ms, kill-acks, selfkill, close
-	Param      int    `json:"param"`      // milliseconds / number of acks
-	Goroutines int    `json:"goroutines"` // concurrent storers
-	Burst      int    `json:"burst"`      // messages per goroutine (selfkill / close end after the burst)
-	Size       int    `json:"size"`       // payload size
+	End        string `json:"end"`                  // kill-ms, kill-acks, selfkill, close, close-busy (clean shutdown after Param acks while the storers keep going)
+	Param      int    `json:"param"`                // milliseconds / number of acks
+	Goroutines int    `json:"goroutines"`           // concurrent storers
+	Burst      int    `json:"burst"`                // messages per goroutine (selfkill / close end after the burst)
+	Size       int    `json:"size"`                 // payload size
+	ReadStores bool   `json:"readstores,omitempty"` // the fresh process that reads history afterwards first stores one more message (a publish arrives before the first history request)
 }
 
 // Case is a sequence of lives on one directory.
@@ -46,13 +48,13 @@ type Case struct {
 func genCase(t *rapid.T) Case {
 	var c Case
 	for i, n := 0, rapid.IntRange(2, 5).Draw(t, "cycles"); i < n; i++ {
-		cy := Cycle{End: rapid.SampledFrom([]string{"kill-ms", "kill-ms", "kill-acks", "selfkill", "selfkill", "close"}).Draw(t, "end"),
+		cy := Cycle{End: rapid.SampledFrom([]string{"kill-ms", "kill-ms", "kill-acks", "selfkill", "selfkill", "close", "close-busy"}).Draw(t, "end"), ReadStores: rapid.IntRange(0, 2).Draw(t, "readstores") == 0,
 			Goroutines: rapid.SampledFrom([]int{1, 1, 4, 16, 64}).Draw(t, "g"), Burst: rapid.SampledFrom([]int{1, 5, 30, 100}).Draw(t, "burst"),
 			Size: rapid.SampledFrom([]int{0, 8, 8, 200, 5000}).Draw(t, "size")}
 		switch cy.End {
 		case "kill-ms":
 			cy.Param = rapid.SampledFrom([]int{0, 1, 5, 20, 60, 150}).Draw(t, "ms")
-		case "kill-acks":
+		case "kill-acks", "close-busy":
 			cy.Param = rapid.SampledFrom([]int{1, 2, 10, 50, 300}).Draw(t, "acks")
 		}
 		c.Cycles = append(c.Cycles, cy)
@@ -105,6 +107,18 @@ func childMain(p plan) {
 		os.Exit(3)
 	}
 	if p.Mode == "read" {
+		if p.Cycle.ReadStores {
+			i := p.Upto
+			ch, ssid := chanOf(i)
+			m := message.New(ssid, []byte(ch), payloadOf(i, 8))
+			m.TTL = ttlOf(i)
+			fmt.Printf("TRY %d %s\n", i, hex.EncodeToString(m.ID))
+			if err := s.Store(m); err != nil {
+				fmt.Println("ERR store:", err)
+				os.Exit(5)
+			}
+			fmt.Printf("ACK %d\n", i)
+		}
 		for g := 0; g <= p.Upto/50+1; g++ {
 			_, ssid := chanOf(g * 50)
 			var from message.ID
@@ -140,25 +154,69 @@ func childMain(p plan) {
 		mu.Unlock()
 	}
 	cy := p.Cycle
-	endless := cy.End == "kill-ms" || cy.End == "kill-acks"
+	endless := cy.End == "kill-ms" || cy.End == "kill-acks" || cy.End == "close-busy"
+	var acks, shutDown int64
+	closeNow := make(chan struct{})
+	var closeOnce sync.Once
 	var wg sync.WaitGroup
 	for g := 0; g < cy.Goroutines; g++ {
 		wg.Add(1)
 		go func(g int) {
 			defer wg.Done()
+			after := 0
 			for k := 0; endless || k < cy.Burst; k++ {
+				if atomic.LoadInt64(&shutDown) == 1 { // the store is closed: a few more publishes still arrive, then the connection is gone
+					if after++; after > 3 {
+						return
+					}
+				}
 				i := p.Start + k*cy.Goroutines + g
 				ch, ssid := chanOf(i)
 				m := message.New(ssid, []byte(ch), payloadOf(i, cy.Size))
 				m.TTL = ttlOf(i)
 				say("TRY %d %s\n", i, hex.EncodeToString(m.ID))
-				if err := s.Store(m); err != nil {
+				err := func() (err error) {
+					defer func() {
+						if p := recover(); p != nil && cy.End == "close-busy" {
+							err = fmt.Errorf("panic: %v", p) // a store racing the shutdown may be refused in any way, as long as it is not acknowledged
+						} else if p != nil {
+							panic(p)
+						}
+					}()
+					return s.Store(m)
+				}()
+				if err != nil && cy.End == "close-busy" {
+					say("NACK %d\n", i)
+					return
+				}
+				if err != nil {
 					say("ERR store: %v\n", err)
 					os.Exit(5)
 				}
 				say("ACK %d\n", i)
+				if cy.End == "close-busy" && atomic.AddInt64(&acks, 1) >= int64(cy.Param) {
+					closeOnce.Do(func() { close(closeNow) })
+				}
 			}
 		}(g)
+	}
+	if cy.End == "close-busy" {
+		<-closeNow
+		if err := s.Close(); err != nil {
+			say("ERR close: %v\n", err)
+			os.Exit(6)
+		}
+		atomic.StoreInt64(&shutDown, 1)
+		// every storer is refused now, or gives up after three more attempts - or is stuck inside the closed store
+		// (its connection would simply never be served again): do not wait for those
+		idle := make(chan struct{})
+		go func() { wg.Wait(); close(idle) }()
+		select {
+		case <-idle:
+		case <-time.After(2 * time.Second):
+		}
+		say("CLOSED\n")
+		os.Exit(0)
 	}
 	wg.Wait()
 	if cy.End == "selfkill" {
@@ -193,6 +251,7 @@ func spawn(p plan) *exec.Cmd {
 	pj, _ := json.Marshal(p)
 	cmd := exec.Command(os.Args[0], "-test.run", "^$")
 	cmd.Env = append(os.Environ(), "VERIF_C15_PLAN="+string(pj))
+	cmd.SysProcAttr = &syscall.SysProcAttr{Pdeathsig: syscall.SIGKILL} // no orphans when the test process itself is stopped
 	return cmd
 }
 
@@ -249,6 +308,8 @@ func run(c Case) vkit.Result {
 				if cy.End == "kill-acks" && acksThisCycle >= cy.Param {
 					kill()
 				}
+			case strings.HasPrefix(line, "NACK "):
+				labels["store-refused-during-shutdown"] = true
 			case line == "CLOSED":
 				closed = true
 			case strings.HasPrefix(line, "ERR"):
@@ -262,7 +323,7 @@ func run(c Case) vkit.Result {
 			timer.Stop()
 		}
 		inflightAtEnd = len(pending)
-		if cy.End == "close" && !closed {
+		if (cy.End == "close" || cy.End == "close-busy") && !closed {
 			return vkit.Failf("cycle %d: clean shutdown did not complete (stderr: %s)", ci, tail(stderr.String()))
 		}
 		if time.Since(started) > 60*time.Second {
@@ -273,7 +334,7 @@ func run(c Case) vkit.Result {
 		}
 		labels["end-"+cy.End] = true
 		// a fresh process reopens the directory and pages through history
-		rd := spawn(plan{Dir: dir, Mode: "read", Upto: next})
+		rd := spawn(plan{Dir: dir, Mode: "read", Upto: next, Cycle: cy})
 		var rerr bytes.Buffer
 		rd.Stderr = &rerr
 		b, _ := rd.Output()
@@ -290,6 +351,17 @@ func run(c Case) vkit.Result {
 			}
 			if l == "DONE" {
 				done = true
+			}
+			var ri int
+			var rid string
+			if n, _ := fmt.Sscanf(l, "TRY %d %s", &ri, &rid); n == 2 {
+				ch, _ := chanOf(ri)
+				acked[ri] = want{rid, ch, hex.EncodeToString(payloadOf(ri, 8)), expiryTTL(ri)}
+				tried[rid] = true
+				if ri >= next {
+					next = ri + 1
+				}
+				labels["reader-stored-first"] = true
 			}
 			if strings.HasPrefix(l, "ERR") {
 				return vkit.Failf("after cycle %d (%+v): the store does not reopen / cannot be queried: %s", ci, cy, l)
